@@ -487,4 +487,150 @@ theorem groupsValue_le (k : Nat) {h t u : Bytes} (hh : h ∈ forms12 67 68 77) (
   simp only [groupsValue, List.length_append, List.length_replicate]
   omega
 
+
+/-! ## the formatter -/
+
+/-- canonical form of one decimal digit: subtractive four and nine unless the long flag asks for the additive form -/
+def dform (one five ten : Nat) (long4 long9 : Bool) (d : Nat) : Bytes :=
+  if d = 4 ∧ long4 = false then [one, five]
+  else if d = 9 ∧ long9 = false then [one, ten]
+  else List.replicate (d / 5) five ++ List.replicate (d % 5) one
+
+theorem toGroup_two (e4 e9 : Nat × Nat × Bytes) (table : List Bytes) (d f : Nat) :
+    toGroup [e4, e9] table d f =
+      if (d == e4.1 && hasFlag f e4.2.1) = true then e4.2.2
+      else if (d == e9.1 && hasFlag f e9.2.1) = true then e9.2.2
+      else table.getD d [] := by
+  simp only [toGroup, List.find?]
+  cases (d == e4.1 && hasFlag f e4.2.1) <;> cases (d == e9.1 && hasFlag f e9.2.1) <;> rfl
+
+theorem toHundreds_eq (d f : Nat) (hd : d ≤ 9) :
+    toHundreds d f = dform 67 68 77 (hasFlag f Gen.roman_FormatLong400) (hasFlag f Gen.roman_FormatLong900) d := by
+  have key : ∀ d < 10, ∀ b4 b9 : Bool,
+      (if (d == 4 && b4) = true then [67, 67, 67, 67] else if (d == 9 && b9) = true then [68, 67, 67, 67, 67]
+        else Gen.roman_hundreds.getD d []) = dform 67 68 77 b4 b9 d := by decide
+  rw [toHundreds, Gen.roman_toHundreds_long, toGroup_two]
+  exact key d (by omega) _ _
+
+theorem toTens_eq (d f : Nat) (hd : d ≤ 9) :
+    toTens d f = dform 88 76 67 (hasFlag f Gen.roman_FormatLong40) (hasFlag f Gen.roman_FormatLong90) d := by
+  have key : ∀ d < 10, ∀ b4 b9 : Bool,
+      (if (d == 4 && b4) = true then [88, 88, 88, 88] else if (d == 9 && b9) = true then [76, 88, 88, 88, 88]
+        else Gen.roman_tens.getD d []) = dform 88 76 67 b4 b9 d := by decide
+  rw [toTens, Gen.roman_toTens_long, toGroup_two]
+  exact key d (by omega) _ _
+
+theorem toUnits_eq (d f : Nat) (hd : d ≤ 9) :
+    toUnits d f = dform 73 86 88 (hasFlag f Gen.roman_FormatLong4) (hasFlag f Gen.roman_FormatLong9) d := by
+  have key : ∀ d < 10, ∀ b4 b9 : Bool,
+      (if (d == 4 && b4) = true then [73, 73, 73, 73] else if (d == 9 && b9) = true then [86, 73, 73, 73, 73]
+        else Gen.roman_units.getD d []) = dform 73 86 88 b4 b9 d := by decide
+  rw [toUnits, Gen.roman_toUnits_long, toGroup_two]
+  exact key d (by omega) _ _
+
+/-- the upper-case numeral in canonical form -/
+def canon (n f : Nat) : Bytes :=
+  List.replicate (n / 1000) 77
+    ++ dform 67 68 77 (hasFlag f Gen.roman_FormatLong400) (hasFlag f Gen.roman_FormatLong900) (n % 1000 / 100)
+    ++ dform 88 76 67 (hasFlag f Gen.roman_FormatLong40) (hasFlag f Gen.roman_FormatLong90) (n % 100 / 10)
+    ++ dform 73 86 88 (hasFlag f Gen.roman_FormatLong4) (hasFlag f Gen.roman_FormatLong9) (n % 10)
+
+theorem numeral_eq (n f : Nat) : numeral n f = canon n f := by
+  rw [numeral, canon, toHundreds_eq _ _ (by omega), toTens_eq _ _ (by omega), toUnits_eq _ _ (by omega)]
+  rfl
+
+theorem dform_hundreds : ∀ d < 10, ∀ b4 b9 : Bool,
+    dform 67 68 77 b4 b9 d ∈ forms12 67 68 77 ∧ gval 67 68 77 (dform 67 68 77 b4 b9 d) = d := by decide
+theorem dform_tens : ∀ d < 10, ∀ b4 b9 : Bool,
+    dform 88 76 67 b4 b9 d ∈ forms12 88 76 67 ∧ gval 88 76 67 (dform 88 76 67 b4 b9 d) = d := by decide
+theorem dform_units : ∀ d < 10, ∀ b4 b9 : Bool,
+    dform 73 86 88 b4 b9 d ∈ forms12 73 86 88 ∧ gval 73 86 88 (dform 73 86 88 b4 b9 d) = d := by decide
+
+/-- the seven letters -/
+def letters : List Nat := [73, 86, 88, 76, 67, 68, 77]
+
+theorem letters_case : ∀ c ∈ letters,
+    lowerByte c = toLowerAscii c ∧ toUpperAscii (toLowerAscii c) = c ∧ toUpperAscii c = c := by decide
+
+theorem forms12_letters : ∀ g ∈ forms12 67 68 77 ++ forms12 88 76 67 ++ forms12 73 86 88, ∀ c ∈ g, c ∈ letters := by
+  decide
+
+theorem canon_letters (n f : Nat) : ∀ c ∈ canon n f, c ∈ letters := by
+  intro c hc
+  simp only [canon, List.mem_append, List.mem_replicate] at hc
+  rcases hc with ((⟨_, rfl⟩ | hc) | hc) | hc
+  · decide
+  · have m := (dform_hundreds (n % 1000 / 100) (by omega) (hasFlag f Gen.roman_FormatLong400)
+      (hasFlag f Gen.roman_FormatLong900)).1
+    exact forms12_letters _ (List.mem_append_left _ (List.mem_append_left _ m)) c hc
+  · have m := (dform_tens (n % 100 / 10) (by omega) (hasFlag f Gen.roman_FormatLong40)
+      (hasFlag f Gen.roman_FormatLong90)).1
+    exact forms12_letters _ (List.mem_append_left _ (List.mem_append_right _ m)) c hc
+  · have m := (dform_units (n % 10) (by omega) (hasFlag f Gen.roman_FormatLong4)
+      (hasFlag f Gen.roman_FormatLong9)).1
+    exact forms12_letters _ (List.mem_append_right _ m) c hc
+
+theorem map_lower_letters (s : Bytes) (h : ∀ c ∈ s, c ∈ letters) :
+    s.map lowerByte = s.map toLowerAscii ∧ up (s.map toLowerAscii) = s ∧ up s = s := by
+  induction s with
+  | nil => exact ⟨rfl, rfl, rfl⟩
+  | cons c t ih =>
+    obtain ⟨e1, e2, e3⟩ := letters_case c (h c (by simp))
+    obtain ⟨i1, i2, i3⟩ := ih (fun x hx => h x (by simp [hx]))
+    refine ⟨?_, ?_, ?_⟩
+    · simp only [List.map_cons, e1, i1]
+    · simp only [List.map_cons, up_cons, e2, i2]
+    · simp only [up_cons, e3, i3]
+
+/-- `format` in canonical form (also for zero, whose numeral is empty) -/
+theorem format_eq (n f : Nat) :
+    format [] n f =
+      if hasFlag f Gen.roman_FormatLowerCase = true then (canon n f).map toLowerAscii else canon n f := by
+  unfold format
+  by_cases h0 : n = 0
+  · subst h0
+    have : canon 0 f = [] := by
+      simp [canon, dform]
+    simp [this]
+  · rw [if_neg h0]
+    simp only [numeral_eq, List.nil_append]
+    rw [(map_lower_letters _ (canon_letters n f)).1]
+
+theorem up_format (n f : Nat) : up (format [] n f) = canon n f := by
+  rw [format_eq]
+  obtain ⟨_, e2, e3⟩ := map_lower_letters _ (canon_letters n f)
+  split
+  · exact e2
+  · exact e3
+
+theorem canon_value (n f : Nat) :
+    groupsValue (n / 1000)
+      (dform 67 68 77 (hasFlag f Gen.roman_FormatLong400) (hasFlag f Gen.roman_FormatLong900) (n % 1000 / 100))
+      (dform 88 76 67 (hasFlag f Gen.roman_FormatLong40) (hasFlag f Gen.roman_FormatLong90) (n % 100 / 10))
+      (dform 73 86 88 (hasFlag f Gen.roman_FormatLong4) (hasFlag f Gen.roman_FormatLong9) (n % 10)) = n := by
+  rw [groupsValue, (dform_hundreds _ (by omega) _ _).2, (dform_tens _ (by omega) _ _).2,
+    (dform_units _ (by omega) _ _).2]
+  omega
+
+theorem format_ne_nil (n f : Nat) (h0 : n ≠ 0) : format [] n f ≠ [] := by
+  intro he
+  have hc : canon n f = [] := by rw [← up_format, he]; rfl
+  have hv := canon_value n f
+  simp only [canon, List.append_eq_nil_iff, List.replicate_eq_nil_iff] at hc
+  obtain ⟨⟨⟨hk, hh⟩, ht⟩, hu⟩ := hc
+  rw [hh, ht, hu, hk] at hv
+  simp [groupsValue, gval] at hv
+  omega
+
+/-- **round trip** -/
+theorem parse_format' (maxLen : Nat) (de : Bool) (n f : Nat) (hn : n < two64) (h0 : n ≠ 0)
+    (hlen : maxLen = 0 ∨ (format [] n f).length ≤ maxLen) :
+    parse maxLen de (format [] n f) = .ok n ∧ valid maxLen de (format [] n f) = .ok () := by
+  have hs : up (format [] n f) = _ := up_format n f
+  unfold canon at hs
+  have := parse_of_decomp de (format_ne_nil n f h0) hlen hs (dform_hundreds _ (by omega) _ _).1
+    (dform_tens _ (by omega) _ _).1 (dform_units _ (by omega) _ _).1
+  rw [canon_value, Nat.mod_eq_of_lt hn] at this
+  exact this
+
 end U.Roman
